@@ -32,6 +32,9 @@ STRATEGIES_QUICK = [
     ("pct", {"kind": "pct", "d": 1}),
     ("pct", {"kind": "pct", "d": 2}),
     ("sticky", {"kind": "sticky", "p": 0.03, "p_store": 0.6}),
+    ("reads", {"kind": "reads", "p": 0.02, "p_read": 0.2, "to_nemesis": 0.7}),
+    ("reads1", {"kind": "reads1", "p": 0.01, "reads_horizon": 8}),
+    ("reads1", {"kind": "reads1", "p": 0.01, "reads_horizon": 24}),
 ]
 STRATEGIES_THOROUGH = STRATEGIES_QUICK + [
     ("random", {"kind": "random", "p": 0.7}),
